@@ -20,6 +20,7 @@ static struct elem pool[MAXN];
 static struct cstl_slist L[MAXL];
 static int N, NL;
 static int vals[MAXN];
+static int vcookie, vbad;       /* every visit / clear callback must receive the private pointer the caller passed */
 static char cfgdesc[200];
 
 static int m_seq[MAXL][MAXN], m_len[MAXL];
@@ -71,7 +72,7 @@ static const char *w_config_desc(void) { return cfgdesc; }
 static void w_init(void)
 {
     int i, l;
-    shim_reset();
+    shim_reset(); vbad = 0;
     __asan_unpoison_memory_region(pool, sizeof pool);
     memset(pool, 0, sizeof pool);
     for (i = 0; i < N; i++) { pool[i].val = vals[i]; pool[i].idx = i; m_where[i] = -1; pool[i].pad = 0x1111; pool[i].tail = 0x2222; pool[i].pad2 = 0x3333; }
@@ -112,7 +113,7 @@ static int cmp_elem(const void *a, const void *b, void *p)
 static int seen_seq[4 * MAXN + 8], seen_n, cb_stop_at;
 static int cb_collect(void *e, void *p)
 {
-    (void)p;
+    if (p != (void *)&vcookie) vbad++;
     if (seen_n < 4 * MAXN + 8) seen_seq[seen_n] = idx_of(e);
     seen_n++;
     if (seen_n > 4 * MAXN) return 99;
@@ -124,7 +125,7 @@ static int mv_from, mv_to, mv_bad;
 static int cb_move(void *e, void *p)
 {
     void *f;
-    (void)p;
+    if (p != (void *)&vcookie) vbad++;
     if (seen_n < 4 * MAXN + 8) seen_seq[seen_n] = idx_of(e);
     seen_n++;
     if (seen_n > 4 * MAXN) return 99;
@@ -146,7 +147,7 @@ static void collect(int l, int stop_at, int *ab, int *res)
 {
     static volatile int r;
     seen_n = 0; cb_stop_at = stop_at;
-    SHIM_CALL(*ab, r = cstl_slist_foreach(&L[l], cb_collect, NULL));
+    SHIM_CALL(*ab, r = cstl_slist_foreach(&L[l], cb_collect, &vcookie));
     *res = r;
 }
 static int same_multiset(const int *a, int na, const int *b, int nb)
@@ -249,7 +250,7 @@ static void w_apply(mc_op_t o)
     case O_FOREACH_MOVE: {
         static volatile int r; int n0 = m_len[a];
         seen_n = 0; mv_from = a; mv_to = b; mv_bad = 0;
-        SHIM_CALL(ab, r = cstl_slist_foreach(&L[a], cb_move, NULL));
+        SHIM_CALL(ab, r = cstl_slist_foreach(&L[a], cb_move, &vcookie));
         if (ab) break;
         MC_CHECK(PC13, r == 0 && mv_bad == 0 && seen_n == n0, "foreach(list %d) whose visit function moves the visited element to list %d made %d visits for %d elements (returned %d)", a, b, seen_n, n0, r);
         for (k = 0; k < seen_n && k < n0; k++) MC_CHECK(PC13, seen_seq[k] == m_seq[a][k], "foreach (moving visitor): visit %d presented element %d, reference says %d", k, seen_seq[k], m_seq[a][k]);
@@ -302,6 +303,7 @@ static void w_audit(void)
             MC_CHECK(PC13, !ab && r == ((j & 1) ? -(j + 1) : j + 1) && seen_n == j + 1, "foreach(list %d) with a visitor returning %d at visit %d: returned %d after %d visits", l, j + 1, j, r, seen_n);
         }
     }
+    MC_CHECK(PC13, vbad == 0, "a visit callback received a private pointer other than the one the caller passed (%d calls)", vbad);
     for (k = 0; k < N; k++) MC_CHECK(PC13, pool[k].pad == 0x1111 && pool[k].tail == 0x2222 && pool[k].pad2 == 0x3333 && pool[k].val == vals[k], "element %d bytes outside its list node were modified", k);
 }
 
@@ -332,6 +334,7 @@ static void w_canon(void)
 {
     int l, i;
     for (l = 0; l < NL; l++) canon_one(l);
+    KB_C('v'); KB_U((unsigned)(vbad != 0));
     KB_C('m'); for (i = 0; i < N; i++) KB_I(m_where[i]);
     for (i = 0; i < N; i++) if (pool[i].pad != 0x1111 || pool[i].tail != 0x2222 || pool[i].pad2 != 0x3333 || pool[i].val != vals[i]) { KB_C('X'); KB_U((unsigned)i); }
 }
